@@ -249,7 +249,25 @@ def r_div(a, b, ctx=None):
         ctx.definedness(z(b) != 0, "divisor non-zero")
     if is_conc(a) and _num(a) == 0:
         return 0
+    if ctx is not None and is_z3(a):
+        c = _cancel_factor(z(a), z(b))        # (x*b)/b = x: sound under the `divisor non-zero` obligation emitted above
+        if c is not None:
+            return c
     return zr(a) / zr(b)
+
+
+def _cancel_factor(t, b):
+    """x if t is syntactically a product x*b (or b*x) of two factors, else None"""
+    def strip(u):
+        return u.arg(0) if z3.is_app(u) and u.decl().kind() == z3.Z3_OP_TO_REAL else u
+    t, b = strip(t), strip(b)
+    if z3.is_mul(t) and t.num_args() == 2:
+        x, y = strip(t.arg(0)), strip(t.arg(1))
+        if y.eq(b):
+            return zr(x)
+        if x.eq(b):
+            return zr(y)
+    return None
 
 
 def _as_real(a):
